@@ -132,7 +132,10 @@ func VerifC19_RouterMirror() {
 			table.VerifXC19Age(dv.neighbors.Get(nbrs[n]), cfg.RouterDeadInterval()+time.Second)
 			alive[n] = false
 			offer[n] = []uint64{16, 16}
+			deadNs := dv.neighbors.Get(nbrs[n])
 			verifNoPanic("C19/router/no-panic", func() { dv.checkDeadNeighbors() })
+			// an update for the dead neighbour's last advertisement that was still pending when it was removed
+			verifNoPanic("C19/router/no-panic", func() { dv.ribUpdate(deadNs) })
 		} else {
 			if !alive[n] {
 				alive[n] = true
